@@ -352,3 +352,232 @@ Proof.
   - intros Xr. now apply EX.
   - intros Xr. eapply op_inexact_only_if; eassumption.
 Qed.
+
+(* ============================================================ the same for / *)
+(* checked_div as a pure function of the operands (None = the fallback), valid whenever the
+   Debug build does not panic *)
+Definition nd_pure w (an ad bn bd : Z) : option (Z * Z) :=
+  if ad =? bd then Some (an, bn)
+  else if an =? bn then Some (bd, ad)
+  else
+    let gac := Z.gcd an bn in
+    let gbd := Z.gcd ad bd in
+    match ichecked_mul w (Z.quot an gac) (Z.quot bd gbd) with
+    | None => None
+    | Some nn =>
+        match ichecked_mul w (Z.quot ad gbd) (Z.quot bn gac) with
+        | None => None
+        | Some dd => Some (nn, dd)
+        end
+    end.
+Definition tail_pure w (numer denom : Z) : option ratio :=
+  if denom =? 0 then None
+  else if numer =? 0 then Some rzero
+  else if numer =? denom then Some rone
+  else
+    let g := Z.gcd numer denom in
+    let n1 := Z.quot numer g in
+    let d1 := Z.quot denom g in
+    if d1 <? 0 then
+      match ichecked_mul w n1 (-1) with
+      | None => None
+      | Some n2 => match ichecked_mul w d1 (-1) with
+                   | None => None
+                   | Some d2 => Some (n2, d2)
+                   end
+      end
+    else Some (n1, d1).
+Definition div_pure w (a b : ratio) : option ratio :=
+  let '(an, ad) := a in
+  let '(bn, bd) := b in
+  if bn =? 0 then None
+  else match nd_pure w an ad bn bd with
+       | None => None
+       | Some (numer, denom) => tail_pure w numer denom
+       end.
+
+Lemma cd_nd_pure p w an ad bn bd : 2 <= w -> rok w (an, ad) -> rok w (bn, bd) -> bn <> 0 ->
+  (exists s, cd_nd Debug w an ad bn bd = Panic s) \/
+  cd_nd p w an ad bn bd = Ok (nd_pure w an ad bn bd).
+Proof.
+  intros Hw [Han [Had Pa]] [Hbn [Hbd Pb]] Nb. cbn [fst snd] in *. unfold cd_nd, nd_pure.
+  destruct (Z.eqb_spec ad bd) as [Ed|Ed]; [right; reflexivity|].
+  destruct (Z.eqb_spec an bn) as [En|En]; [right; reflexivity|].
+  assert (MINneg : imin w < 0) by (apply imin_neg; lia).
+  destruct (igcd_cases p w an bn Hw Han Hbn En) as [G1|G1].
+  2:{ left. rewrite G1. eexists. reflexivity. }
+  right. rewrite G1. cbn [bind].
+  assert (S2 : gcd_safe w ad bd).
+  { pose proof Had as X. pose proof Hbd as Y. apply in_int_iff in X. apply in_int_iff in Y. split; intros E; lia. }
+  rewrite igcd_spec by assumption. cbn [bind].
+  assert (P1 : 0 < Z.gcd an bn).
+  { pose proof (Z.gcd_nonneg an bn). destruct (Z.eq_dec (Z.gcd an bn) 0) as [G0|G0]; [|lia].
+    apply Z.gcd_eq_0_r in G0. contradiction. }
+  assert (P2 : 0 < Z.gcd ad bd) by (apply gcd_pos_r; lia).
+  rewrite !idiv_ok by lia. cbn [bind].
+  destruct (ichecked_mul w (Z.quot an (Z.gcd an bn)) (Z.quot bd (Z.gcd ad bd))); [|reflexivity].
+  rewrite ?idiv_ok by lia. cbn [bind].
+  destruct (ichecked_mul w (Z.quot ad (Z.gcd ad bd)) (Z.quot bn (Z.gcd an bn))); reflexivity.
+Qed.
+
+Lemma cd_tail_pure p w numer denom : 2 <= w ->
+  in_int w numer = true -> in_int w denom = true -> denom <> 0 ->
+  cd_tail p w (Some (numer, denom)) = Ok (tail_pure w numer denom).
+Proof.
+  intros Hw Hn Hd Nd. unfold cd_tail, tail_pure.
+  destruct (Z.eqb_spec denom 0); [contradiction|].
+  destruct (Z.eqb_spec numer 0) as [N0|N0]; [reflexivity|].
+  destruct (Z.eqb_spec numer denom) as [ND|ND]; [reflexivity|].
+  assert (MINneg : imin w < 0) by (apply imin_neg; lia).
+  assert (S : gcd_safe w numer denom) by (split; intros E; split; congruence).
+  rewrite igcd_spec by assumption. cbn [bind].
+  assert (Pg : 0 < Z.gcd numer denom).
+  { pose proof (Z.gcd_nonneg numer denom). destruct (Z.eq_dec (Z.gcd numer denom) 0) as [G0|G0]; [|lia].
+    apply Z.gcd_eq_0_r in G0. contradiction. }
+  rewrite !idiv_ok by lia. cbn [bind].
+  destruct (Z.quot denom (Z.gcd numer denom) <? 0); [|reflexivity].
+  destruct (ichecked_mul w (Z.quot numer (Z.gcd numer denom)) (-1)); [|reflexivity].
+  destruct (ichecked_mul w (Z.quot denom (Z.gcd numer denom)) (-1)); reflexivity.
+Qed.
+
+Lemma rchecked_div_pure p w a b : 2 <= w -> rok w a -> rok w b -> fst b <> 0 ->
+  (exists s, rchecked_div Debug w a b = Panic s) \/ rchecked_div p w a b = Ok (div_pure w a b).
+Proof.
+  intros Hw Ha Hb Nb. destruct a as [an ad], b as [bn bd]. cbn [fst snd] in Nb.
+  rewrite !rchecked_div_unfold. unfold div_pure. destruct (Z.eqb_spec bn 0); [contradiction|].
+  destruct (cd_nd_pure p w an ad bn bd Hw Ha Hb Nb) as [[s Hs]|Hp].
+  { left. rewrite Hs. eexists. reflexivity. }
+  destruct (cd_nd_spec p w an ad bn bd Hw Ha Hb Nb) as [[s Hs]|[Hn|[numer [denom [Hn [Rn [Rd [Nd _]]]]]]]].
+  - left. rewrite Hs. eexists. reflexivity.
+  - right. rewrite Hn in *. inversion Hp as [Hp']. reflexivity.
+  - right. rewrite Hn in *. inversion Hp as [Hp']. cbn [bind]. now apply cd_tail_pure.
+Qed.
+
+Definition is_some {A} (o : option A) : bool := match o with Some _ => true | None => false end.
+Definition div_fits (a b : ratio) : bool := is_some (div_pure 32 a b).
+
+(* the explicit conditions under which number.rs Div leaves the exact representations *)
+Definition div_takes_fallback (a b : num) : bool :=
+  match a, b with
+  | Fixnum l, Fixnum r | Fixnum l, BigInt r | BigInt l, Fixnum r | BigInt l, BigInt r =>
+      negb (in_i32 l && in_i32 r)
+  | Fixnum l, Rational n d | BigInt l, Rational n d =>
+      negb (in_i32 l) || negb (div_fits (l, 1) (n, d))
+  | Rational n d, Fixnum r | Rational n d, BigInt r =>
+      negb (in_i32 r) || negb (div_fits (n, d) (r, 1))
+  | Rational ln ld, Rational rn rd => negb (div_fits (ln, ld) (rn, rd))
+  | _, _ => false
+  end.
+Definition div_known_fallback (a b : num) : bool :=
+  div_takes_fallback a b && representable (qv a / qv b).
+
+Lemma or_float_div_outcome (oD o : out (option ratio)) (pure : option ratio) fbD fb :
+  ((exists s, oD = Panic s) \/ o = Ok pure) ->
+  (exists s, or_float oD fbD = Panic s) \/
+  exists r, or_float o fb = Ok r /\ is_exact r = is_some pure.
+Proof.
+  intros [[s H]|H].
+  - left. rewrite H. eexists. reflexivity.
+  - right. rewrite H. destruct pure; cbn; eexists; split; reflexivity.
+Qed.
+
+Lemma ratio_of_ints_outcome p l r0 : in_i32 l = true -> in_i32 r0 = true -> r0 <> 0 ->
+  (exists s, ratio_of_ints Debug l r0 = Panic s) \/
+  exists r, ratio_of_ints p l r0 = Ok r /\ is_exact r = true.
+Proof.
+  intros Hl Hr Nz. unfold ratio_of_ints, rnew.
+  destruct (rreduce_gen p W32 l r0 ltac:(unfold W32; lia) Hl Hr Nz) as [[s Hs]|[n' [d' [Hq _]]]].
+  - left. rewrite Hs. eexists. reflexivity.
+  - right. rewrite Hq. eexists. split; reflexivity.
+Qed.
+
+(* / on exact operands: the Debug build panics (class ratio32-overflow-panic), or the result
+   exists in both profiles and is inexact exactly on the explicit conditions *)
+Theorem div_outcome p a b :
+  wfb a = true -> wfb b = true -> is_exact a = true -> is_exact b = true -> ~ (qv b == 0)%Q ->
+  (exists s, num_div Debug a b = Panic s) \/
+  exists r, num_div p a b = Ok r /\ is_exact r = negb (div_takes_fallback a b).
+Proof.
+  intros Wa Wb Xa Xb Nz. assert (H32 : 2 <= 32) by lia.
+  destruct a as [l|l|ln ld|fl]; destruct b as [r0|r0|rn rd|fr]; try discriminate;
+    cbn [num_div div_takes_fallback qv wfb] in *;
+    try (apply rwfb_rwf in Wa); try (apply rwfb_rwf in Wb);
+    try (apply qv_int_nz in Nz); try (apply qv_rat_nz in Nz).
+  1,2,4,5: destruct (in_i32 l) eqn:El; destruct (in_i32 r0) eqn:Er; cbn [andb negb];
+    try (right; eexists; split; reflexivity); now apply ratio_of_ints_outcome.
+  1,2: destruct (in_i32 l) eqn:El; cbn [negb orb]; [|right; eexists; split; reflexivity];
+    rewrite negb_involutive; apply or_float_div_outcome;
+    exact (rchecked_div_pure p 32 (rfrom_integer l) (rn, rd) H32 (rok_int l El) (rwf_rok _ _ Wb) Nz).
+  1,2: destruct (in_i32 r0) eqn:Er; cbn [negb orb]; [|right; eexists; split; reflexivity];
+    rewrite negb_involutive; apply or_float_div_outcome;
+    exact (rchecked_div_pure p 32 (ln, ld) (rfrom_integer r0) H32 (rwf_rok _ _ Wa) (rok_int r0 Er) Nz).
+  rewrite negb_involutive. apply or_float_div_outcome.
+  exact (rchecked_div_pure p 32 (ln, ld) (rn, rd) H32 (rwf_rok _ _ Wa) (rwf_rok _ _ Wb) Nz).
+Qed.
+
+(* C08_full for / outside the two decidable classes (Debug panic; fallback although
+   representable) *)
+Theorem div_full_outside p a b :
+  wfb a = true -> wfb b = true -> is_exact a = true -> is_exact b = true -> ~ (qv b == 0)%Q ->
+  (forall s, num_div Debug a b <> Panic s) -> div_known_fallback a b = false ->
+  exists r, num_div p a b = Ok r /\ wfb r = true /\
+    (is_exact r = true -> (qv r == qv a / qv b)%Q) /\
+    (is_exact r = false ->
+     forall x, wfb x = true -> is_exact x = true -> ~ (qv x == qv a / qv b)%Q).
+Proof.
+  intros Wa Wb Xa Xb Nz NP NK.
+  destruct (div_outcome p a b Wa Wb Xa Xb Nz) as [[s Hs]|[r [Hr Xr]]].
+  { exfalso. apply (NP s). exact Hs. }
+  exists r. split; [exact Hr|].
+  assert (EX : is_exact r = true -> wfb r = true /\ (qv r == qv a / qv b)%Q).
+  { intros X. destruct (div_exact p a b r Wa Wb Xa Xb Nz NP Hr X) as [W E]. split; [exact W|].
+    rewrite <- E. symmetry. apply Qdiv_mult_l. exact Nz. }
+  split; [|split].
+  - destruct (is_exact r) eqn:X; [now apply EX|]. destruct r; try discriminate. reflexivity.
+  - intros X. now apply EX.
+  - intros X. rewrite X in Xr. symmetry in Xr. apply negb_false_iff in Xr.
+    unfold div_known_fallback in NK. rewrite Xr in NK. cbn [andb] in NK.
+    now apply unrepresentable_spec.
+Qed.
+
+Theorem div_known_fallback_tight p a b r :
+  wfb a = true -> wfb b = true -> is_exact a = true -> is_exact b = true -> ~ (qv b == 0)%Q ->
+  (forall s, num_div Debug a b <> Panic s) ->
+  div_known_fallback a b = true -> num_div p a b = Ok r ->
+  is_exact r = false /\ exists x, wfb x = true /\ is_exact x = true /\ (qv x == qv a / qv b)%Q.
+Proof.
+  intros Wa Wb Xa Xb Nz NP K Hr. unfold div_known_fallback in K. apply andb_true_iff in K. destruct K as [K1 K2].
+  split; [|now apply representable_complete].
+  destruct (div_outcome p a b Wa Wb Xa Xb Nz) as [[s Hs]|[r' [Hr' Xr]]].
+  { exfalso. apply (NP s). exact Hs. }
+  rewrite Hr in Hr'. inversion Hr'. subst r'. rewrite Xr, K1. reflexivity.
+Qed.
+
+(* ---- C08_full, all four operators, on the complement of the decidable defect classes *)
+Definition div_debug_panics (a b : num) : bool :=
+  match num_div Debug a b with Panic _ => true | _ => false end.
+Definition div_known (a b : num) : bool := div_debug_panics a b || div_known_fallback a b.
+
+Theorem full_outside p (op : profile -> num -> num -> out num) (opq : Q -> Q -> Q)
+    (known : num -> num -> bool) :
+  In (op, opq, known)
+     ((num_add, Qplus, op_known_fallback AAdd) :: (num_sub, Qminus, op_known_fallback ASub) ::
+      (num_mul, Qmult, op_known_fallback AMul) :: (num_div, Qdiv, div_known) :: nil) ->
+  forall a b, wfb a = true -> wfb b = true -> is_exact a = true -> is_exact b = true ->
+  (opq = Qdiv -> ~ (qv b == 0)%Q) ->
+  known a b = false ->
+  exists r, op p a b = Ok r /\ wfb r = true /\
+    (is_exact r = true -> (qv r == opq (qv a) (qv b))%Q) /\
+    (is_exact r = false ->
+     forall x, wfb x = true -> is_exact x = true -> ~ (qv x == opq (qv a) (qv b))%Q).
+Proof.
+  intros HIn a b Wa Wb Xa Xb Nz NK.
+  cbn [In] in HIn. destruct HIn as [E|[E|[E|[E|[]]]]]; inversion E; subst op opq known.
+  - exact (op_full_outside AAdd p a b Wa Wb Xa Xb NK).
+  - exact (op_full_outside ASub p a b Wa Wb Xa Xb NK).
+  - exact (op_full_outside AMul p a b Wa Wb Xa Xb NK).
+  - unfold div_known in NK. apply orb_false_iff in NK. destruct NK as [NP NK].
+    apply div_full_outside; try assumption.
+    + now apply Nz.
+    + intros s Hs. unfold div_debug_panics in NP. rewrite Hs in NP. discriminate.
+Qed.
